@@ -87,7 +87,7 @@ CHECKS = {
          "stateless exploration (level-by-level BFS with replay of operation prefixes on a fresh chain copy + fresh TransactionPool, memoised on chain fingerprint + ordered pool contents) with joint-validity invariants and a mined-block-accepted-by-twin oracle on every state",
          "c14",
          "Universe: chain b1..b8 with a fork f6..f11, ten transactions (independent, conflicting, 0-conf chained, aggregate of pooled ones, below minimum fee, over weight, bad sum, immature coinbase spend). Alphabet: submit(Ti, stem|fluff), connect a block carrying {} / {T1} / {T3} / {T1,T4} followed by the node's reconcile glue, mine the pool's own mineable set (real PoW, as mine_block.rs), fork block (reorg + reconcile_reorg_cache), fork header (header head moves alone); a capacity part (max_pool_size 2) reaches eviction through add_to_pool. Every state: txpool entries (and stempool on top) apply together on the head per a reference ledger, aggregate validates and Chain::validate_tx accepts it, every entry pays the minimum fee / is within weight / validates, T6 T7 T8 never present, the mineable set assembles into a block within the weight limit that a twin chain accepts. Part c13-pool: pool admission of coinbase spends and height-locked kernels one below / at / above their thresholds at every state of a two-fork universe including header-only states (property C13's pool clauses, keys c13:*).",
-         "Depth 3 (quick) / 5 (thorough, capped by time while expanding depth 5; the cap is reported). One genuine defect recorded as known finding (maturity cutoff read through the header MMR when the header head is on another fork); two repaired.",
+         "Part node-glue: a second node wired as Server::new wires it (PoolToChainAdapter, ChainToPoolAndNetAdapter over a Peers object without connections) runs every operation sequence of depth 3 (quick) / 4 (thorough) over submissions, blocks delivered with Options NONE / SYNC / MINE, fork blocks and mining in lock step with the engine's node (same verdicts, heads, txpool, stempool, reorg cache after every operation), and in every state the real mine_block::build_block (hook) must assemble the mineable set into a block the chain accepts. Depth 3 (quick) / 5 (thorough, capped by time while expanding depth 5; the cap is reported). One genuine defect recorded as known finding (maturity cutoff read through the header MMR when the header head is on another fork); two repaired.",
          "DESIGN.md §4 C14"),
  "C15": ("model_checking",
          "explicit-state exploration (DFS over directory snapshots) of the real TxHashSet / Extension / BitmapAccumulator through the extension seam with synthetic multi-chunk blocks, against a from-scratch accumulator and an independent chunk-MMR reference",
@@ -160,7 +160,7 @@ def main():
         "setup_cmd": "cd /verif/harness && CARGO_NET_OFFLINE=true cargo build --release --offline",
         "hooks": {
             "guard": "grin_verif",
-            "enable": "RUSTFLAGS=--cfg grin_verif via /verif/harness/.cargo/config.toml ([build] rustflags); the harness has path dependencies on /repo/{core,chain,store,pool,p2p,keychain,util}, so every ./check rebuilds them from /repo's working tree with the hooks compiled in",
+            "enable": "RUSTFLAGS=--cfg grin_verif via /verif/harness/.cargo/config.toml ([build] rustflags); the harness has path dependencies on /repo/{core,chain,store,pool,p2p,keychain,util,servers}, so every ./check rebuilds them from /repo's working tree with the hooks compiled in",
             "baseline_off_cmd": "cd /repo && cargo test --workspace --no-fail-fast --offline",
             "source_commits": hooks_commits,
             "add_only": True,
